@@ -6,6 +6,7 @@ import (
 	"io"
 	"reflect"
 	"strings"
+	"time"
 
 	gojson "github.com/goccy/go-json"
 
@@ -105,6 +106,17 @@ func c06Entries() []c06Entry {
 		{"Decoder:[]int/2", sdec(func() any { return &[]int{} }, 2)},
 		{"Decoder:map[string]RawMessage/3", sdec(func() any { return &map[string]gojson.RawMessage{} }, 3)},
 		{"Decoder:string/1", sdec(func() any { var v string; return &v }, 1)},
+		{"Decoder:iface/full", sdec(func() any { var v any; return &v }, 1<<30)},
+		{"Decoder:big-struct/full", sdec(func() any { return &c06Big{} }, 1<<30)},
+		{"Decoder.Token/full", func(b []byte) {
+			d := gojson.NewDecoder(bytes.NewReader(b))
+			for i := 0; i < 200; i++ {
+				if _, err := d.Token(); err != nil {
+					break
+				}
+				d.More()
+			}
+		}},
 		{"Decoder.Token", func(b []byte) {
 			d := gojson.NewDecoder(&cutReader{append([]byte{}, b...), 3})
 			for i := 0; i < 200; i++ {
@@ -192,6 +204,113 @@ func c06Run(c *rt.Ctx, sub int, entries []c06Entry, b []byte, class string) {
 	}
 }
 
+// c06RunTimed is c06Run with every call on its own goroutine and a deadline: the inputs of the
+// families that use it are a few KiB and take microseconds, so a call that has not returned after
+// 20 s and still has not after 60 s more is reported as a hang (the goroutine is abandoned and the
+// rest of the batch skipped). Returns false after a hang.
+func c06RunTimed(c *rt.Ctx, sub int, entries []c06Entry, b []byte, class string) bool {
+	if !c.Cur(sub, "shapes=core\ninput("+class+"): "+rt.Q(b)) {
+		return true
+	}
+	for i := range entries {
+		e := &entries[i]
+		type res struct {
+			pan        bool
+			msg, frame string
+		}
+		done := make(chan res, 1)
+		in := append([]byte{}, b...)
+		go func() {
+			pan, msg, frame := rt.Guard(func() { e.f(in) })
+			done <- res{pan, msg, frame}
+		}()
+		var r res
+		returned := false
+		for _, wait := range []time.Duration{20 * time.Second, 60 * time.Second} {
+			select {
+			case r = <-done:
+				returned = true
+			case <-time.After(wait):
+			}
+			if returned {
+				break
+			}
+		}
+		c.Eval(1)
+		ename := e.name
+		if j := strings.IndexByte(ename, '/'); j > 0 {
+			ename = ename[:j]
+		}
+		if !returned {
+			c.Violate(rt.Violation{Monitor: "termination", Entry: ename, Kind: "hang", Ctx: class[:strings.IndexByte(class+":", ':')],
+				Detail: fmt.Sprintf("%s did not return within 80 s on a %d-byte input (%s)", e.name, len(b), class), Input: string(b), Sub: sub})
+			return false
+		}
+		if r.pan {
+			frame := r.frame
+			if frame == "" {
+				frame = "no-gojson-frame"
+			}
+			c.Violate(rt.Violation{Monitor: "no-panic", Entry: ename, Kind: "panic:" + rt.PanicClass(r.msg), Ctx: frame,
+				Detail: e.name + " panicked on " + rt.Q(b) + ": " + r.msg, Input: string(b), Sub: sub})
+		}
+	}
+	return true
+}
+
+// c06BoundaryLens are total input lengths around the sizes at which the stream buffer is refilled
+// and doubled (the first read offers 511 bytes, then 512, 1024, ...).
+var c06BoundaryLens = []int{510, 511, 512, 1022, 1023, 1024, 2046, 2047, 2048, 4095, 4096, 8191}
+
+// c06Boundary feeds valid texts (and value sequences) whose total length, or whose first value's
+// length, is exactly L.
+func c06Boundary(c *rt.Ctx, entries []c06Entry, L int) {
+	pad := func(n int, ch string) string { return strings.Repeat(ch, n) }
+	var docs [][2]string
+	add := func(class, d string) { docs = append(docs, [2]string{class, d}) }
+	add("string", `"`+pad(L-2, "x")+`"`)
+	add("string-escaped-tail", `"`+pad(L-4, "x")+`\n"`)
+	add("string-multibyte-tail", `"`+pad(L-4, "x")+"\u00e9"+`"`)
+	add("object", `{"a":"`+pad(L-8, "y")+`"}`)
+	add("object-num-tail", `{"b":"`+pad(L-14, "y")+`","a":1}`)
+	add("array", `["`+pad(L-6, "z")+`",1]`)
+	add("array-nums", `[`+pad((L-3)/2, "1,")+pad(1+(L-3)%2, "2")+`]`)
+	add("number", `1`+pad(L-1, "0"))
+	add("nested", `{"d":{"x":["`+pad(L-16, "q")+`"]}}`)
+	add("unknown-member", `{"zz":"`+pad(L-15, "w")+`","a":1}`)
+	add("ws-inside", `[`+pad(L-2, " ")+`]`)
+	add("literal-tail", `[`+pad(L-6, " ")+`true]`)
+	add("null-tail", `{"e":`+pad(L-10, " ")+`null}`)
+	sub := 0
+	for _, d := range docs {
+		if len(d[1]) != L {
+			panic(fmt.Sprintf("c06Boundary: %s has length %d, want %d", d[0], len(d[1]), L))
+		}
+		for _, tail := range []string{"", " ", "\n", "1", ` {"a":2}`, `"s"`, "x", ","} {
+			if !c06RunTimed(c, sub, entries, []byte(d[1]+tail), fmt.Sprintf("boundary:%s first-value-length=%d tail=%q", d[0], L, tail)) {
+				return
+			}
+			sub++
+		}
+		// the same text ending exactly at L after leading white space
+		for _, lead := range []int{1, 7} {
+			if L-lead > 20 {
+				t := pad(lead, " ") + strings.Replace(d[1], pad(lead, string(d[1][len(d[1])/2])), "", 1)
+				if len(t) == L {
+					if !c06RunTimed(c, sub, entries, []byte(t), fmt.Sprintf("boundary:%s total-length=%d lead=%d", d[0], L, lead)) {
+						return
+					}
+					sub++
+				}
+			}
+		}
+	}
+	c.NonTrivialEnum(int64(sub))
+	c.Obs("boundary_length_inputs", int64(sub))
+	c.SetAdd("boundary_lengths", fmt.Sprint(L))
+	c.Sample(map[string]any{"family": "refill-boundary lengths", "length": L, "inputs": sub, "entry_points": len(entries)})
+}
+
 func tower(open, close string, depth int, leaf string) []byte {
 	return []byte(strings.Repeat(open, depth) + leaf + strings.Repeat(close, depth))
 }
@@ -203,9 +322,9 @@ func init() {
 		NumBatches: func(tier string, seed int64) int {
 			n := len(Alphabet28)
 			if tier == "thorough" {
-				return 1 + n*n + mutT + 24 + 40
+				return 1 + n*n + mutT + 24 + len(c06BoundaryLens) + 40
 			}
-			return 1 + n*n + mutQ + 14 + 8
+			return 1 + n*n + mutQ + 14 + len(c06BoundaryLens) + 8
 		},
 		Run: func(c *rt.Ctx) {
 			entries := c06Entries()
@@ -314,6 +433,8 @@ func init() {
 				c.ObsMax("max_nesting_depth", int64(d))
 				c.NonTrivial("tower", sh[0], fmt.Sprint(d))
 				c.Sample(map[string]any{"family": "nesting tower", "open": sh[0], "depth": d, "closed": sh[1] != ""})
+			case c.Idx <= n*n+nmut+ntow+len(c06BoundaryLens):
+				c06Boundary(c, entries, c06BoundaryLens[c.Idx-(n*n+nmut+ntow)-1])
 			default:
 				// generated destination types x documents (valid, mutated, truncated)
 				r := c.RNG(0)
